@@ -2,6 +2,7 @@
 C11 — An uninteresting original is left untouched; the exit status tells the outcome.
 -/
 import LithiumProofs.World
+import LithiumProofs.WorldStatus
 
 namespace World
 
@@ -86,6 +87,15 @@ theorem C11_reject_original_any_history (w0 : W) (evs : List Ev) (h0 : w0.testca
     w.tests.length = w0.tests.length + 1 ∧ w.testCount = w0.testCount + 1 ∧ w.diskWrites = w0.diskWrites ∧
       w.disk = w0.disk ∧ w.exit = .returned 1 := by
   simp [runMainW, beginRun, dumpOriginal, interesting, finish, h0]
+
+/-- the status clause for ANY history: the object in any prior state, the original accepted and something to reduce — the
+run either raises or returns 0 exactly when a candidate was accepted IN THIS RUN (the tests after its first one), 1
+otherwise; what earlier runs on the object accepted does not count -/
+theorem C11_status_any_history (w0 : W) (evs : List Ev) (h0 : w0.testcase.len ≠ 0) :
+    let w := runMainW w0 evs .accept
+    w.exit = .raised ∨
+      w.exit = .returned (if (w.tests.drop (w0.tests.length + 1)).any (fun r => r.out == .accept) then 0 else 1) :=
+  status_any_history w0 evs h0
 
 theorem C11_check_only_any_history (w0 : W) (first : Outcome) :
     let w := runCheckOnlyW w0 first
